@@ -218,6 +218,30 @@ func (P *Prog) discoverRoles() error {
 				walk(a, d)
 			}
 			eachInstr(f, func(_ *ssa.BasicBlock, _ int, in ssa.Instruction) {
+				// the node method handed on as a value: a method value `v.process`, a method expression
+				// `ZogSchema.process` / `(*StringSchema).process` given to a shared runner
+				var ops []*ssa.Value
+				for _, op := range in.Operands(ops) {
+					var g *ssa.Function
+					switch y := (*op).(type) {
+					case *ssa.Function:
+						g = y
+					case *ssa.MakeClosure:
+						g, _ = y.Fn.(*ssa.Function)
+					}
+					if g == nil {
+						continue
+					}
+					if ci, isCall := in.(ssa.CallInstruction); isCall && ci.Common().Value == *op {
+						continue // the callee of a static call: counted below
+					}
+					base := strings.TrimSuffix(strings.TrimSuffix(g.Name(), "$thunk"), "$bound")
+					for _, nm := range ctxMethods {
+						if base == nm && (g.Synthetic != "" || g.Signature.Recv() != nil) {
+							votes[nm]++
+						}
+					}
+				}
 				c, ok := in.(ssa.CallInstruction)
 				if !ok {
 					return
